@@ -3,6 +3,7 @@ package main
 // rtv check: decide one property; write evidence; print VIOLATION / KNOWN-FINDING lines.
 
 import (
+	"os/exec"
 	"regexp"
 	"encoding/json"
 	"flag"
@@ -343,10 +344,27 @@ func cmdCheck(args []string) {
 	}
 	disNum := discharged + len(knownHits)
 	_ = disNum
+	// thorough tier: the must-fail corpus of this property (changes that break it) is run against scratch copies of the
+	// working tree; what it catches is evidence about the check, not about the tree, and does not change the exit code
+	var mutationRuns []map[string]interface{}
+	if *tier == "thorough" && violations == 0 && os.Getenv("RTV_NO_SELFTEST") == "" {
+		self, _ := os.Executable()
+		c := exec.Command(self, "selftest", "-repo", *repo, "-property", *prop)
+		c.Env = append(os.Environ(), "RTV_NO_SELFTEST=1")
+		out, _ := c.CombinedOutput()
+		for _, ln := range strings.Split(string(out), "\n") {
+			f := strings.Fields(ln)
+			if len(f) >= 3 && f[0] == "selftest" {
+				mutationRuns = append(mutationRuns, map[string]interface{}{"change": f[1], "result": f[2]})
+				fmt.Printf("mutation-selftest: %s %s\n", f[1], f[2])
+			}
+		}
+	}
 	cov := map[string]interface{}{
 		"obligations":               total,
 		"discharged":                discharged,
 		"known_finding_obligations": knownHits,
+		"mutation_selftest":         mutationRuns,
 		"checker_cmd":               fmt.Sprintf("bin/rtv check --property %s --tier %s", *prop, *tier),
 		"trusted_base":              trustedBase(),
 		"functions_under_contract":  funcsUnder,
